@@ -223,8 +223,13 @@ def found_ourselves(f):
     return False
 
 
-def summarise(ctx, b, flavour):
-    ev, res = ctx.eval(b, no_inline=NOINLINE + (r"::alloc_in$", r"::alloc_aligned_bytes_in$", r"Memory::<.*>::clear$", r"get_aligned_pointer_mut$"))
+def summarise(ctx, b, flavour, inline=()):
+    """`inline`: names (regex sources) of callees that are evaluated in place although they are units of their own (used to compare a caller together with a
+    callee when a test moved from one into the other)"""
+    pats = NOINLINE + (r"::alloc_in$", r"::alloc_aligned_bytes_in$", r"Memory::<.*>::clear$", r"get_aligned_pointer_mut$")
+    if inline:
+        pats = tuple(p_ for p_ in pats if not any(re.search(p_, "::" + nm) or re.search(p_, nm) for nm in inline))
+    ev, res = ctx.eval(b, no_inline=pats)
     k = K(res, b, ctx, ev)
     items = Items()
     removed_blocks = set()
@@ -262,6 +267,8 @@ def summarise(ctx, b, flavour):
                 continue
             if f[0] == "discr" and tag(f[1]) == "call" and isinstance(f[1][1], str) and f[1][1].endswith("checked_sub"):
                 continue    # carried by the comparison it implies (sym.implied_facts): Some <=> b <= a
+            if f[0] == "discr" and tag(f[1]) == "vsum" and len(f[1]) > 3 and f[1][3][0] == "from":
+                continue    # a test of a value joined from variant constructions: carried by the guards of the constructing edges (sym._flag_phi_guards)
             if f[0] == "discr" and tag(f[1]) == "tryfrom":
                 continue    # Ok <=> the value fits the target type: carried by the two comparisons (Err is expanded into its two cases by dnf.guard_dnf_pairs)
             if f[0] == "discr" and tag(f[1]) == "filter":
@@ -526,8 +533,60 @@ def fmt_item(it):
     return (s[:300] + ("  UNDER {" + g[:300] + "}" if g else ""))
 
 
+def compare(ss, su):
+    """-> (ok, how, only_s, only_u)"""
+    only_s, only_u = sorted(ss - su, key=repr), sorted(su - ss, key=repr)
+    ok = not only_s and not only_u
+    how = ""
+    if not ok:
+        # the same effects under conditions that are spelled or structured differently (merged arms, an extra pre-check): compare the exact path
+        # conditions of every differing effect as formulas - each disjunct of one side must imply the disjunction of the other side
+        sigs = set(it[:-1] for it in only_s) | set(it[:-1] for it in only_u)
+        sem = True
+        # a write whose value is a join (`let x = match .. { .. }; store(x)`) or an if-then-else term (`map_or`) is one write per case: compare, per
+        # resulting value, the exact conditions under which that value is written
+        done = set()
+        for sig in sorted(sigs, key=repr):
+            if sig[0] != "write":
+                continue
+            wkey = ("write", sig[1])
+            if wkey in done:
+                continue
+            ca, cb = ss.cases.get(wkey), su.cases.get(wkey)
+            if ca is None and cb is None:
+                continue
+            def table(cs, side, key=wkey):
+                # the side without joins: its plain items for this target
+                if cs is None:
+                    cs = [(it[2], side.exact.get(it[:-1]) or []) for it in side if it[0] == "write" and it[1] == key[1]]
+                t_ = {}
+                for v, d in cs:
+                    t_.setdefault(v, []).extend(d)
+                return {v: dnf_simplify(d) for v, d in t_.items()}
+            ta, tb = table(ca, ss), table(cb, su)
+            ta = {v: d for v, d in ta.items() if d}
+            tb = {v: d for v, d in tb.items() if d}
+            if set(ta) == set(tb) and all(dnf_implies(ta[v], tb[v]) and dnf_implies(tb[v], ta[v]) for v in ta):
+                done.add(wkey)
+        sigs = set(sg for sg in sigs if not (sg[0] == "write" and ("write", sg[1]) in done))
+        for sig in sigs:
+            A, B = ss.exact.get(sig), su.exact.get(sig)
+            if not A or not B:
+                sem = False
+                break
+            A, B = dnf_simplify(A), dnf_simplify(B)
+            if not (dnf_implies(A, B) and dnf_implies(B, A)):
+                sem = False
+                break
+        if sem:
+            ok = True
+            how = " (%d effect(s) under differently structured but equivalent conditions)" % len(sigs)
+    return ok, how, only_s, only_u
+
+
 @rule("C11-SIB", "C11", 30, "paired functions of sync::Arena and unsync::Arena have equal guarded-effect summaries under the single-thread projection of sync (differences only by exact tolerated key)")
 def sib(ctx):
+    results = []
     for key, ps, pu in PAIRS:
         bs, bu = ctx.facts.find(ps), ctx.facts.find(pu)
         if len(bs) != 1 or len(bu) != 1:
@@ -536,52 +595,34 @@ def sib(ctx):
             from facts import AnchorError
             raise AnchorError("C11 pair %s not found (%d sync, %d unsync bodies): a one-sided rename needs the PAIRS table updated" % (key, len(bs), len(bu)))
         ss, su = summarise(ctx, bs[0], "sync"), summarise(ctx, bu[0], "unsync")
-        only_s, only_u = sorted(ss - su, key=repr), sorted(su - ss, key=repr)
-        ok = not only_s and not only_u
-        how = ""
-        if not ok:
-            # the same effects under conditions that are spelled or structured differently (merged arms, an extra pre-check): compare the exact path
-            # conditions of every differing effect as formulas - each disjunct of one side must imply the disjunction of the other side
-            sigs = set(it[:-1] for it in only_s) | set(it[:-1] for it in only_u)
-            sem = True
-            # a write whose value is a join (`let x = match .. { .. }; store(x)`) or an if-then-else term (`map_or`) is one write per case: compare, per
-            # resulting value, the exact conditions under which that value is written
-            done = set()
-            for sig in sorted(sigs, key=repr):
-                if sig[0] != "write":
-                    continue
-                wkey = ("write", sig[1])
-                if wkey in done:
-                    continue
-                ca, cb = ss.cases.get(wkey), su.cases.get(wkey)
-                if ca is None and cb is None:
-                    continue
-                def table(cs, side, key=wkey):
-                    # the side without joins: its plain items for this target
-                    if cs is None:
-                        cs = [(it[2], side.exact.get(it[:-1]) or []) for it in side if it[0] == "write" and it[1] == key[1]]
-                    t_ = {}
-                    for v, d in cs:
-                        t_.setdefault(v, []).extend(d)
-                    return {v: dnf_simplify(d) for v, d in t_.items()}
-                ta, tb = table(ca, ss), table(cb, su)
-                ta = {v: d for v, d in ta.items() if d}
-                tb = {v: d for v, d in tb.items() if d}
-                if set(ta) == set(tb) and all(dnf_implies(ta[v], tb[v]) and dnf_implies(tb[v], ta[v]) for v in ta):
-                    done.add(wkey)
-            sigs = set(sg for sg in sigs if not (sg[0] == "write" and ("write", sg[1]) in done))
-            for sig in sigs:
-                A, B = ss.exact.get(sig), su.exact.get(sig)
-                if not A or not B:
-                    sem = False
-                    break
-                A, B = dnf_simplify(A), dnf_simplify(B)
-                if not (dnf_implies(A, B) and dnf_implies(B, A)):
-                    sem = False
-                    break
-            if sem:
-                ok = True
-                how = " (%d effect(s) under differently structured but equivalent conditions)" % len(sigs)
+        ok, how, only_s, only_u = compare(ss, su)
+        results.append([key, ok, how, only_s, only_u, bs[0], bu[0], len(ss)])
+    # a test that moved between a function and its only caller (`if kind == None { return 0 }` into the callee) changes both summaries one-sidedly:
+    # compare the caller with the callee evaluated in place, on both sides
+    by_key = {r[0]: r for r in results}
+    for r in results:
+        if r[1]:
+            continue
+        callee_s, callee_u = r[5], r[6]
+        for c in results:
+            if c is r:
+                continue
+            cs_, cu_ = c[5], c[6]
+            calls_s = [t for _, t in cs_.calls() if (t.get("resolved") or t.get("callee")) == callee_s.path]
+            calls_u = [t for _, t in cu_.calls() if (t.get("resolved") or t.get("callee")) == callee_u.path]
+            if not calls_s or not calls_u:
+                continue
+            others = [b_ for b_ in ctx.facts.own if b_ is not cs_ and b_ is not cu_ and any((t.get("resolved") or t.get("callee")) in (callee_s.path, callee_u.path) for _, t in b_.calls())]
+            if others:
+                continue
+            nm = callee_s.path.split("::")[-1]
+            ok2, how2, _, _ = compare(summarise(ctx, cs_, "sync", inline=(nm,)), summarise(ctx, cu_, "unsync", inline=(nm,)))
+            if ok2:
+                r[1], r[2] = True, " (agrees when read together with its only caller %s)" % cs_.name
+                if not c[1]:
+                    c[1], c[2] = True, " (agrees when read together with its callee %s)" % nm
+            break
+    for key, ok, how, only_s, only_u, b0, _, n_items in results:
         yield Ob(key_of("C11-SIB", key, "summary"), ok,
-                 ("%d items each%s" % (len(ss), how)) if ok else "summaries differ: only in sync: %s | only in unsync: %s" % ([fmt_item(i) for i in only_s[:3]], [fmt_item(i) for i in only_u[:3]]),
-                 bs[0].loc(), {"only_sync": [fmt_item(i) for i in only_s[:6]], "only_unsync": [fmt_item(i) for i in only_u[:6]], "items": len(ss)})
+                 ("%d items each%s" % (n_items, how)) if ok else "summaries differ: only in sync: %s | only in unsync: %s" % ([fmt_item(i) for i in only_s[:3]], [fmt_item(i) for i in only_u[:3]]),
+                 b0.loc(), {"only_sync": [fmt_item(i) for i in only_s[:6]], "only_unsync": [fmt_item(i) for i in only_u[:6]], "items": n_items})
